@@ -283,6 +283,8 @@ func matchCAS(p *Prog) condMatch {
 
 func runC20(c *Check, a *Analysis) {
 	p := c.P
+	ruleLockBalance(c, a, "R-LOCK-BALANCE", "Conn.mutex", "Transport.connsMu", "Client.lock", "Server.mut", "Server.mutex", "persistConn.mu", "stream.mut")
+	ruleNoCloseUnderLock(c, a, "R-NO-CLOSE-UNDER-LOCK")
 	ls := a.Locks()
 	sc := siteCounter{}
 	c.Rule("R-SCHED-PAIR", "every scheduler.New is paired with a Close: local queues on every path from creation to the return of the owning function; queues stored in Conn fields by the reader's exit; queues stored in the poll context by the EOF branch", 8)
